@@ -398,15 +398,65 @@ def check_C08(tier, seed):
         parser_runs(rep, "robust", seed + 50, "c08a_", 12, 400)
         parser_runs(rep, "sched", seed + 51, "c08b_", 6, 100)
         parser_runs(rep, "sched", seed + 52, "c08c_", 12, 60, parsers=DIMACS, specs=("Trace_Dimacs",))
+        parser_runs(rep, "corrupt", seed + 53, "c08d_", 12, 300, parsers="cnf,wcnf,gcnf,log,aag,btor2")
     else:
         parser_runs(rep, "robust", seed + 50, "c08a_", 14, 8000)
         parser_runs(rep, "sched", seed + 51, "c08b_", 14, 1500)
         parser_runs(rep, "sched", seed + 52, "c08c_", 14, 1200, parsers=DIMACS, specs=("Trace_Dimacs",))
-    rep.cov["rule"] = ("sentence 1: at every give_up event of every run the line must be the number of LFs before the line "
+        parser_runs(rep, "corrupt", seed + 53, "c08d_", 14, 6000, parsers="cnf,wcnf,gcnf,log,aag,btor2")
+    rep.cov["rule"] = ("sentence 2: well-formed documents of cnf/wcnf/gcnf/solver log/aag/btor2 with one numeric token replaced "
+                       "by a garbage token, an overflowing number or an out-of-range literal at a known span: the reported "
+                       "line must be the token's line and the column must lie on the token (ParserContract, `corr`); for "
+                       "the DIMACS family the Dimacs machine additionally fixes line and column of every error exactly. "
+                       "sentence 1: at every give_up event of every run the line must be the number of LFs before the line "
                        "start plus one, position >= line start, column = position - line start + 1 <= line length + 1, and "
                        "every line_at_offset event must announce exactly the next line start of the input (text formats); "
                        "the location returned to the caller must be the one computed there, under all chunkings. "
                        + CONTRACT_RULE)
+    return rep.finish()
+
+
+def check_C10(tier, seed):
+    rep = Report("C10", tier, seed, "model_checking")
+    mc_reader(rep, tier)
+    _clean_traces("c10_")
+    exe = vlib.build_harness(True)
+    sizes = ["1048576", "4194304"] if tier == QUICK else ["1048576", "16777216", "134217728"]
+    paths, procs = [], []
+    for i, sz in enumerate(sizes):
+        p = os.path.join(TRACES, "c10_%d.ndjson" % i)
+        paths.append(p)
+        procs.append(subprocess.Popen([exe, "stream", "--out", p, "--bytes", sz], cwd=vlib.ROOT, stdout=subprocess.PIPE,
+                                      stderr=subprocess.PIPE, text=True))
+    nruns = 0
+    for pr in procs:
+        out, err = pr.communicate(timeout=3000)
+        if pr.returncode != 0:
+            raise ToolError("vh stream failed (exit %d): %s" % (pr.returncode, err[-800:]))
+        nruns += json.loads(out.strip().splitlines()[-1])["runs"]
+    res = validate_traces("c10_", "Trace_Contract", "Trace_Contract.cfg", paths)
+    for rej in res["rejected"]:
+        first = json.loads(rej["first_unmatched"])
+        rep.violation({"kind": "stream-bound", "parser": first.get("parser", ""), "object": "parser", "event": "stream", "op": "",
+                       "spec": "Trace_Contract", "panic": first.get("res") == "panic"},
+                      {"spec": "Trace_Contract", "how_to_replay": "vh stream --bytes %s (release build)" % first.get("bytes"),
+                       "records": [json.loads(x) for x in rej["records"]], "first_unmatched": first})
+    with open(paths[0]) as fh:
+        lines = fh.read().splitlines()
+    rep.cov["samples"] += lines[:3]
+    rep.cov["traces_validated_against_impl"] = nruns - len(res["rejected"])
+    rep.cov["evaluations"] = nruns
+    rep.cov["distinct_nontrivial"] = nruns
+    rep.cov["bytes_streamed_per_size"] = sizes
+    rep.cov["rule"] = ("model: BufBound (Len(buf) <= 3*maxChunk + maxNeed) is an invariant of the DeferredReader design model for "
+                       "every operation history; traces: generated inputs of 1 MiB .. 128 MiB (never materialised) streamed "
+                       "through all seven parsers with chunk sizes 16 / 256 / 16384 and reads of 1 byte, 13 bytes and full "
+                       "chunks; the reader's largest buffer length / capacity (rd hook) and the peak live heap (counting "
+                       "allocator) of each run must satisfy ParserContract!StreamOk, whose bound depends on the chunk size "
+                       "and the longest item only; each (parser, size, chunk, read size) run counts once")
+    rep.assumptions += ["the bound is claimed for a constant chunk size", "release build; heap is measured by the harness' "
+                        "counting global allocator"]
+    _clean_traces("c10_")
     return rep.finish()
 
 
@@ -438,7 +488,11 @@ def check_C06(tier, seed):
     if tier == QUICK:
         parser_runs(rep, "bounds", seed, "c06_", 12, 150, parsers=DIMACS, specs=BOTH)
         parser_runs(rep, "sched", seed + 3, "c06s_", 12, 40, parsers=DIMACS, specs=("Trace_Dimacs",))
+        parser_runs(rep, "bounds", seed + 4, "c06a_", 12, 200, parsers="aag,aig", specs=("Trace_Contract", "Trace_AigerRef"))
+        parser_runs(rep, "sched", seed + 6, "c06b_", 6, 60, parsers="aag,aig", specs=("Trace_AigerRef",))
     else:
+        parser_runs(rep, "bounds", seed + 4, "c06a_", 14, 4000, parsers="aag,aig", specs=("Trace_Contract", "Trace_AigerRef"))
+        parser_runs(rep, "sched", seed + 6, "c06b_", 14, 800, parsers="aag,aig", specs=("Trace_AigerRef",))
         parser_runs(rep, "bounds", seed, "c06_", 14, 3000, parsers=DIMACS, specs=BOTH)
         parser_runs(rep, "sched", seed + 3, "c06s_", 14, 600, parsers=DIMACS, specs=("Trace_Dimacs",))
         parser_runs(rep, "bounds", seed + 5, "c06r_", 14, 1500, parsers=DIMACS, specs=("Trace_Dimacs",), release=True)
@@ -448,8 +502,11 @@ def check_C06(tier, seed):
                        "clause / group counts incl. 0 = unspecified, u64 weights, 7..9-digit numerals, leading zeros), both "
                        "ignore_header settings, all five literal types, in one read and with 1-byte reads; acceptance, values "
                        "and error locations must equal the machine's. " + CONTRACT_RULE)
-    rep.assumptions += ["AIGER and BTOR2 number/limit semantics are covered at contract level (C01/C05) and by the round-trip "
-                        "check C03 only; their token-level machines are not built (DESIGN.md fallback)"]
+    rep.cov["rule"] += (" AIGER: documents with literals on and around 2M+1, odd / zero defining literals, counts around M, "
+                        "binary delta codes of every encoded length incl. padded and > 64-bit ones: whenever the real parser "
+                        "accepts, its items must equal the reference reading AigerRef (arbitrary-precision, limits enforced).")
+    rep.assumptions += ["BTOR2 numbers are covered at contract level (C01/C05) and by the round-trip check C03 only",
+                        "AigerRef is consulted for accepted inputs only (C06 is about accepted inputs)"]
     return rep.finish()
 
 
